@@ -132,4 +132,17 @@ def run(ctx):
             sh = gen.shape(rng, rank=rng.randrange(1, 5), hi=9)
             rec = {"type": kind, "kwargs": [[f"{key}_type", gen.shape_arg(rng, sh, key)]]}
             one(rec, sh, sh, kind)
+        # the shape of a scalar signal (rank 0), as an element-wise node of rank 0 declares it: an empty integer array
+        for dt in ("<i8", "<i4"):
+            empty = {"a": dt, "sh": [0], "x": ""}
+            one({"type": kind, "kwargs": [[f"{key}_type", empty]]}, [], [], kind + "_rank0")
+            one({"type": kind, "kwargs": [[f"{key}_type", {"d": [[key, empty]]}]]}, [], [], kind + "_rank0")
     ctx.compare("nodes", cases, obs, reqs)
+    # parameters that share their bytes with other parameters of the graph keep their own shapes (hence types)
+    import tempfile, shutil
+    from props.c01 import big_and_twins
+    tmpdir = tempfile.mkdtemp(prefix="nirverif-c05-", dir="/var/tmp")
+    try:
+        big_and_twins(ctx, tmpdir, big=False)
+    finally:
+        shutil.rmtree(tmpdir, ignore_errors=True)
